@@ -646,7 +646,6 @@ func (validateStream) Execute(c Case) {
 	}
 }
 
-
 // validateAux: the exported component validators are the parts validation is made of. For every edit block
 // of the typed Spec, ContainerEdits.Validate must accept iff every part is accepted by its own validator
 // (ValidateEnv, DeviceNode/Hook/Mount/IntelRdt.Validate, nil entries rejected); the deprecated ValidateIntelRdt
